@@ -129,6 +129,7 @@ def shard(ctx, acc):
     s = info['stats']
     nt = bool(s.get('state_entries>=2') or s.get('composite_entry') or s.get('directive_seen'))
     cls = ['has:' + k for k in prog['meta'] if k in ('loop_directive', 'composite_write', 'nested_def', 'for_unpack', 'nested_loop')]
+    cls += [k for k in prog['meta'] if k.startswith('excluded:')]
     for k in ('state_entries>=2', 'composite_entry', 'directive_seen', 'write_laws_skipped_undefined_composite'):
       if s.get(k):
         cls.append('run_with:' + k)
